@@ -26,11 +26,18 @@ Inductive dg_rule :=
 | DgUpdKeep               (* the (re-encoded) new withdrawer, whatever it is — the current tree *)
 | DgUpdRemoveIfDeployer   (* "" when the new withdrawer is the deployer ("the withdraw address is removed") *)
 | DgUpdUnknown.
+(** what EpochInfo.Validate (used by the epochs GenesisState.Validate and by AddEpochInfo) demands of the start height *)
+Inductive ep_rule :=
+| EpValNonneg                (* CurrentEpochStartHeight >= 0 — the current tree *)
+| EpValPositiveWhenStarted   (* … and > 0 once EpochCountingStarted ("the first block has height 1") *)
+| EpValUnknown.
 Record cfg := {
   c_rid : rid_rule;
   c_tf_keeps_bank_md : bool;  (* unsafeGenesisInsertDenom keeps bank metadata that already exists *)
   c_pair_json_id : bool;      (* asset.Pair (Un)MarshalJSON copy the string unchanged *)
-  c_dg_upd : dg_rule          (* the withdrawer strings the x/devgas message handlers can store *)
+  c_dg_upd : dg_rule;         (* the withdrawer strings the x/devgas message handlers can store *)
+  c_ep_val : ep_rule;         (* EpochInfo.Validate *)
+  c_ep_swallow : bool         (* x/epochs AppModule.InitGenesis discards the error of InitGenesis (`_ = InitGenesis(…)`) *)
 }.
 
 (** pure functions of the Go code over opaque payloads *)
@@ -86,8 +93,30 @@ Definition add_epoch (h t : Z) (acc : option epochs_st) (e : epoch) : option epo
                       ep_dur := ep_dur e; ep_cur := ep_cur e; ep_cstart := ep_cstart e;
                       ep_started := ep_started e; ep_height := h |} m)
   end.
-Definition init_epochs (h t : Z) (g : epochs_gen) : option epochs_st :=
-  fold_left (add_epoch h t) g (Some []).
+(** EpochInfo.Validate: identifier not empty, duration not 0, start height not negative (+ the rule's extra demand) *)
+Definition epoch_valid (r : ep_rule) (empty : key) (e : epoch) : bool :=
+  negb (ep_id e =? empty) && negb (Z.eqb (ep_dur e) 0) && Z.leb 0 (ep_height e) &&
+  match r with
+  | EpValNonneg => true
+  | EpValPositiveWhenStarted => negb (ep_started e && Z.eqb (ep_height e) 0)
+  | EpValUnknown => false
+  end.
+Fixpoint nodupb (l : list nat) : bool :=
+  match l with [] => true | x :: r => negb (existsb (Nat.eqb x) r) && nodupb r end.
+(** GenesisState.Validate: unique identifiers, every epoch valid *)
+Definition epochs_gen_valid (r : ep_rule) (empty : key) (g : epochs_gen) : bool :=
+  nodupb (map ep_id g) && forallb (epoch_valid r empty) g.
+(** epochs.InitGenesis at the InitChain context (height [h] = the genesis' initial height, 0 when it has none or 1;
+    time [t]): Validate, then AddEpochInfo per epoch (its own Validate is the same check).  [None] = it returns an error
+    (then nothing was inserted: Validate runs first and AddEpochInfo cannot fail after it). *)
+Definition init_epochs (r : ep_rule) (empty : key) (h t : Z) (g : epochs_gen) : option epochs_st :=
+  if epochs_gen_valid r empty g then fold_left (add_epoch h t) g (Some []) else None.
+(** … as the MODULE runs it: an error is discarded when [swallow] — the chain starts with NO epochs — else it aborts *)
+Definition init_epochs_mod (r : ep_rule) (swallow : bool) (empty : key) (h t : Z) (g : epochs_gen) : option epochs_st :=
+  match init_epochs r empty h t g with
+  | Some m => Some m
+  | None => if swallow then Some [] else None
+  end.
 
 (* ------------------------------------------------------------------ oracle *)
 Record rate := { r_rate : id; r_created : Z; r_ts : Z }.       (* ExchangeRateAtBlock *)
@@ -184,9 +213,6 @@ Definition export_tf (s : tf_st) : option tf_gen :=
   | Some l => Some {| tg_params := tf_params s; tg_denoms := l |}
   | None => None
   end.
-
-Fixpoint nodupb (l : list nat) : bool :=
-  match l with [] => true | x :: r => negb (existsb (Nat.eqb x) r) && nodupb r end.
 
 (** [md0]: bank metadata as restored by x/bank's InitGenesis, which runs earlier *)
 Definition init_tf (c : cfg) (F : funs) (md0 : smap id) (g : tf_gen) : option tf_st :=
@@ -436,9 +462,26 @@ Definition export_app (env : list authacc) (s : app_st) : option app_gen :=
     (initialised earlier in the module order) hold. *)
 Definition init_app (c : cfg) (F : funs) (env : list authacc) (md0 : smap id) (h t : Z) (g : app_gen)
   : option app_st :=
-  match init_epochs h t (g_epochs g), init_tf c F md0 (g_tf g), init_devgas F (g_devgas g), init_evm F env (g_evm g) with
+  match init_epochs_mod (c_ep_val c) (c_ep_swallow c) (f_empty F) h t (g_epochs g), init_tf c F md0 (g_tf g), init_devgas F (g_devgas g), init_evm F env (g_evm g) with
   | Some e, Some tf, Some dg, Some ev =>
       Some {| a_sudo := init_sudo (g_sudo g); a_infl := init_infl (g_infl g); a_epochs := e;
               a_oracle := init_oracle c h t (json_oracle_gen F (g_oracle g)); a_tf := tf; a_devgas := dg; a_evm := ev |}
   | _, _, _, _ => None
+  end.
+
+(** ITERATED round trips: a chain started from an export is itself exported and imported, generation after generation,
+    each at its own InitChain height (0 for a genesis without initial height) and time.  (Blocks run between two
+    generations lead to another reachable state; the theorems quantify over all well-formed ones.) *)
+Fixpoint regen (c : cfg) (F : funs) (env : list authacc) (gens : list (Z * Z)) (s : app_st) : option app_st :=
+  match gens with
+  | [] => Some s
+  | (h, t) :: rest =>
+      match export_app env s with
+      | None => None
+      | Some g =>
+          match init_app c F env (tf_bankmd (a_tf s)) h t g with
+          | None => None
+          | Some s' => regen c F env rest s'
+          end
+      end
   end.
